@@ -33,6 +33,89 @@ fn dbg_bool(dbg: &str, name: &str) -> i64 {
     }
 }
 
+
+// Enumerations are projected by the *name* of the variant (the API), mapped to the code the standard assigns to
+// that name - never by casting the discriminant, which would follow a renumbering of the enum silently.
+fn fs_code(f: &FlightStatus) -> i64 {
+    match f {
+        FlightStatus::NoAlertNoSPIAirborne => 0,
+        FlightStatus::NoAlertNoSPIOnGround => 1,
+        FlightStatus::AlertNoSPIAirborne => 2,
+        FlightStatus::AlertNoSPIOnGround => 3,
+        FlightStatus::AlertSPIAirborneGround => 4,
+        FlightStatus::NoAlertSPIAirborneGround => 5,
+        FlightStatus::Reserved => 6,
+        FlightStatus::NotAssigned => 7,
+    }
+}
+fn ids_code(t: &UtilityMessageType) -> i64 {
+    match t {
+        UtilityMessageType::NoInformation => 0,
+        UtilityMessageType::CommB => 1,
+        UtilityMessageType::CommC => 2,
+        UtilityMessageType::CommD => 3,
+    }
+}
+fn ss_code(s: &SurveillanceStatus) -> i64 {
+    match s {
+        SurveillanceStatus::NoCondition => 0,
+        SurveillanceStatus::PermanentAlert => 1,
+        SurveillanceStatus::TemporaryAlert => 2,
+        SurveillanceStatus::SPICondition => 3,
+    }
+}
+pub fn parity_code(f: &CPRFormat) -> i64 {
+    match f {
+        CPRFormat::Even => 0,
+        CPRFormat::Odd => 1,
+    }
+}
+fn sign_code(s: &Sign) -> i64 {
+    match s {
+        Sign::Positive => 0,
+        Sign::Negative => 1,
+    }
+}
+fn vrsrc_code(s: &VerticalRateSource) -> i64 {
+    match s {
+        VerticalRateSource::BarometricPressureAltitude => 0,
+        VerticalRateSource::GeometricAltitude => 1,
+    }
+}
+fn gts_code(s: &StatusForGroundTrack) -> i64 {
+    match s {
+        StatusForGroundTrack::Invalid => 0,
+        StatusForGroundTrack::Valid => 1,
+    }
+}
+fn es_code(e: &EmergencyState) -> i64 {
+    match e {
+        EmergencyState::None => 0,
+        EmergencyState::General => 1,
+        EmergencyState::Lifeguard => 2,
+        EmergencyState::MinimumFuel => 3,
+        EmergencyState::NoCommunication => 4,
+        EmergencyState::UnlawfulInterference => 5,
+        EmergencyState::DownedAircraft => 6,
+        EmergencyState::Reserved2 => 7,
+    }
+}
+fn tcl_code(t: &TypeCoding) -> i64 {
+    match t {
+        TypeCoding::D => 1,
+        TypeCoding::C => 2,
+        TypeCoding::B => 3,
+        TypeCoding::A => 4,
+    }
+}
+fn ver_code(v: &ADSBVersion) -> i64 {
+    match v {
+        ADSBVersion::DOC9871AppendixA => 0,
+        ADSBVersion::DOC9871AppendixB => 1,
+        ADSBVersion::DOC9871AppendixC => 2,
+    }
+}
+
 fn cap(c: &Capability) -> i64 {
     match c {
         Capability::AG_UNCERTAIN => 0,
@@ -55,10 +138,10 @@ fn dr(d: &DownlinkRequest) -> i64 {
 }
 
 fn surv(m: &mut Obj, fs: &FlightStatus, d: &DownlinkRequest, um: &UtilityMessage) {
-    put(m, "fs", *fs as i64);
+    put(m, "fs", fs_code(fs));
     put(m, "dr", dr(d));
     put(m, "iis", i64::from(um.iis));
-    put(m, "ids", um.ids as i64);
+    put(m, "ids", ids_code(&um.ids));
 }
 
 fn chars(s: &str) -> Value {
@@ -82,11 +165,11 @@ fn cf_type(cf: &ControlField) -> i64 {
 
 fn position(m: &mut Obj, a: &Altitude) {
     put(m, "tc", i64::from(a.tc));
-    put(m, "ss", a.ss as i64);
+    put(m, "ss", ss_code(&a.ss));
     put(m, "saf", i64::from(a.saf_or_imf));
     put(m, "alt", a.alt.map_or(-1, i64::from));
     put(m, "t", i64::from(a.t));
-    put(m, "f", a.odd_flag as i64);
+    put(m, "f", parity_code(&a.odd_flag));
     put(m, "lat", i64::from(a.lat_cpr));
     put(m, "lon", i64::from(a.lon_cpr));
 }
@@ -103,16 +186,16 @@ fn opmode(m: &mut Obj, om: &OperationalMode) {
 pub fn velocity(m: &mut Obj, v: &AirborneVelocity) {
     put(m, "vst", i64::from(v.st));
     put(m, "vnac5", i64::from(v.nac_v));
-    put(m, "vrsrc", v.vrate_src as i64);
-    put(m, "vrsign", v.vrate_sign as i64);
+    put(m, "vrsrc", vrsrc_code(&v.vrate_src));
+    put(m, "vrsign", sign_code(&v.vrate_sign));
     put(m, "vr", i64::from(v.vrate_value));
-    put(m, "difsign", v.gnss_sign as i64);
+    put(m, "difsign", sign_code(&v.gnss_sign));
     put(m, "dif", i64::from(v.gnss_baro_diff));
     match &v.sub_type {
         AirborneVelocitySubType::GroundSpeedDecoding(g) => {
-            put(m, "dew", g.ew_sign as i64);
+            put(m, "dew", sign_code(&g.ew_sign));
             put(m, "vew", i64::from(g.ew_vel));
-            put(m, "dns", g.ns_sign as i64);
+            put(m, "dns", sign_code(&g.ns_sign));
             put(m, "vns", i64::from(g.ns_vel));
         }
         AirborneVelocitySubType::AirspeedDecoding(a) => {
@@ -132,17 +215,17 @@ fn me(m: &mut Obj, me: &ME) {
         ME::NoPosition(_) => put(m, "mek", 0),
         ME::AircraftIdentification(i) => {
             put(m, "mek", 1);
-            put(m, "tcl", i.tc as i64);
+            put(m, "tcl", tcl_code(&i.tc));
             put(m, "cat", i64::from(i.ca));
             m.insert("cs".into(), chars(&i.cn));
         }
         ME::SurfacePosition(s) => {
             put(m, "mek", 2);
             put(m, "mov", i64::from(s.mov));
-            put(m, "gts", s.s as i64);
+            put(m, "gts", gts_code(&s.s));
             put(m, "trk", i64::from(s.trk));
             put(m, "t", i64::from(s.t));
-            put(m, "f", s.f as i64);
+            put(m, "f", parity_code(&s.f));
             put(m, "lat", i64::from(s.lat_cpr));
             put(m, "lon", i64::from(s.lon_cpr));
         }
@@ -173,7 +256,7 @@ fn me(m: &mut Obj, me: &ME) {
                     AircraftStatusType::Reserved => 3,
                 },
             );
-            put(m, "es", s.emergency_state as i64);
+            put(m, "es", es_code(&s.emergency_state));
             put(m, "id", i64::from(s.squawk));
         }
         ME::TargetStateAndStatusInformation(t) => {
@@ -206,7 +289,7 @@ fn me(m: &mut Obj, me: &ME) {
             put(m, "arv", i64::from(c.arv));
             put(m, "ts", i64::from(c.ts));
             put(m, "cctc", i64::from(c.tc));
-            put(m, "ver", a.version_number as i64);
+            put(m, "ver", ver_code(&a.version_number));
             put(m, "nica", i64::from(a.nic_supplement_a));
             put(m, "nacp", i64::from(a.navigational_accuracy_category));
             put(m, "gva", i64::from(a.geometric_vertical_accuracy));
@@ -227,7 +310,7 @@ fn me(m: &mut Obj, me: &ME) {
             put(m, "nicc", i64::from(c.nic_supplement_c));
             put(m, "lw", i64::from(s.lw_codes));
             put(m, "gps", i64::from(s.gps_antenna_offset));
-            put(m, "ver", s.version_number as i64);
+            put(m, "ver", ver_code(&s.version_number));
             put(m, "nica", i64::from(s.nic_supplement_a));
             put(m, "nacp", i64::from(s.navigational_accuracy_category));
             put(m, "sil", i64::from(s.source_integrity_level));
